@@ -411,7 +411,8 @@ class GetDescriptorHandlerBlock(Elaboratable):
         # We still want to be able to store a position beyond bounds (+1),
         # this is required for descriptors length multiple of the maximum packet size.
         # Like this we do not overflow our position and are able to send a ZLP on the next request.
-        position_in_stream = Signal(range(descriptor_max_length + 1))
+        # (At least three bits wide: the byte / word slicing below assumes two byte-select bits and a word index.)
+        position_in_stream = Signal(range(max(descriptor_max_length + 1, 8)))
         bytes_sent = Signal.like(length)
 
         # Registers that store descriptor length and data base address.
